@@ -61,6 +61,31 @@ def main():
             cov.start()
             try:
                 mod.run(ctx)
+                # changed-source escalation (DESIGN 2.3 step 4): if an anchored file differs from the
+                # aligned/ snapshot and some changed executable line was never executed, generate once
+                # more with another seed (only happens on a changed tree)
+                try:
+                    chg = cover.changed_lines(prop, repo)
+                    if chg:
+                        def unreached():
+                            u = {}
+                            for f, ls in chg.items():
+                                miss = sorted((ls & cover.executable_lines(f)) - cov.hit.get(f, set()))
+                                if miss:
+                                    u[os.path.relpath(f, os.path.realpath(repo))] = miss
+                            return u
+                        ctx.extra["changed_anchor_lines"] = {os.path.relpath(f, os.path.realpath(repo)): sorted(ls)[:50]
+                                                              for f, ls in chg.items()}
+                        u = unreached()
+                        if u and ctx.time_left() > 30 and not ctx.s_violations:
+                            import random as _r
+                            ctx.rng = _r.Random(ctx.seed + 7919)
+                            ctx.count("escalation_rounds")
+                            mod.run(ctx)
+                            u = unreached()
+                        ctx.extra["unreached_changed_lines"] = u
+                except Exception as e:
+                    ctx.extra["escalation_note"] = "escalation failed: %r" % (e,)
             finally:
                 cov.stop()
                 try:
